@@ -809,6 +809,7 @@ def correspondence(ctx, model_ok=True):
                    "deep-snapshotted. non-trivial = some storer with >= 2 steps and >= 2 particles; distinct by canonical JSON",
            "samples": cases[-3:], "model_runner": "Eval vm_compute in generated cases files (sharded coqc)",
            "failures": [], "broken": []}
+    out["all_cases"] = cases          # the driver runs the property oracle on these as well
     # the property text on the real objects, for every case
     shrunk = set()
     for c, e in zip(cases, engines):
